@@ -151,7 +151,7 @@ func (e *Engine) recordFailure(st *State, f *Failure) {
 		}
 		return
 	}
-	key := f.Kind + "|" + f.ID + "|" + f.Pos
+	key := f.Kind + "|" + f.ID + "|" + f.Pos + "|" + strings.Join(f.Known, ",")
 	if r.failKeys[key] {
 		return
 	}
